@@ -36,6 +36,10 @@ type Prog struct {
 	Whole bool
 
 	impls map[*types.Func][]*ssa.Function
+
+	// thorough tier: VTA call graph restricted to call sites in module functions
+	vta      map[ssa.CallInstruction][]*ssa.Function
+	vtaStats map[string]int
 }
 
 // LoadOpts selects what to load.
@@ -134,6 +138,9 @@ func Load(opts LoadOpts) (*Prog, error) {
 		return nil, fmt.Errorf("only %d module packages loaded, expected at least 10", len(p.Pkgs))
 	}
 	p.collectFuncs()
+	if opts.Whole {
+		p.buildVTA()
+	}
 	return p, nil
 }
 
@@ -180,4 +187,12 @@ func (p *Prog) Pos(pos token.Pos) string {
 	ps := p.Fset.Position(pos)
 	f := strings.TrimPrefix(ps.Filename, p.Root+"/")
 	return fmt.Sprintf("%s:%d", f, ps.Line)
+}
+
+// CallGraphStats summarises the whole-program call graph (thorough tier).
+func (p *Prog) CallGraphStats() map[string]int {
+	if p.vtaStats == nil {
+		return map[string]int{}
+	}
+	return p.vtaStats
 }
